@@ -366,7 +366,9 @@ static void scenario(const vh::Json& sc, vh::Out& out, vh::Rng& rng, const vh::A
                 else if (lt == "LOOP_LIB") of.reset(new OfflinePacketFilter(FILTERS[fid], DataLinkType<Loopback>()));
                 else of.reset(new OfflinePacketFilter(FILTERS[fid], DataLinkType<LtTag<DLT_NULL> >()));
                 OfflinePacketFilter copy(*of); OfflinePacketFilter assigned("ip", DataLinkType<EthernetII>()); assigned = copy;
-                const OfflinePacketFilter& use = rng.coin() ? *of : (rng.coin() ? copy : assigned);
+                OfflinePacketFilter copy_of_assigned(assigned);          // a filter that was assigned to is copied on (stored in a container, passed by value)
+                int which = (int)rng.below(4);
+                const OfflinePacketFilter& use = which == 0 ? *of : which == 1 ? copy : which == 2 ? assigned : copy_of_assigned;
                 for (int i = 0; i < n; ++i) { const Bytes& b = fr[i].bytes; pcap_pkthdr h; memset(&h, 0, sizeof h); h.caplen = h.len = (bpf_u_int32)b.size();
                     bool ref = pcap_offline_filter(&prog, &h, b.empty() ? ZERO : &b[0]) != 0; bool lib = use.matches_filter(b.empty() ? ZERO : &b[0], (uint32_t)b.size());
                     bufv.push_back(std::make_pair(lib, ref)); }
